@@ -69,7 +69,7 @@ func genC07(t *rapid.T) C07Case {
 	c.SPCert = rapid.SampledFrom([]string{"valid", "valid", "valid", "valid", "empty", "garbage", "nocert-tls"}).Draw(t, "spCert")
 	c.StoreKind = rapid.SampledFrom([]string{"tls", "custom"}).Draw(t, "storeKind")
 	c.Plain = rapid.SampledFrom([]string{"signed", "signed", "unsigned", "forged", "attacker-signed", "non-assertion", "nested-wrapper"}).Draw(t, "plain")
-	c.Place = rapid.SampledFrom([]string{"direct", "direct", "direct", "nested", "in-forged"}).Draw(t, "place")
+	c.Place = rapid.SampledFrom([]string{"direct", "direct", "direct", "nested", "in-forged", "direct+nested-after", "nested-before+direct"}).Draw(t, "place")
 	c.RespSig = rapid.SampledFrom([]string{"none", "none", "trusted", "attacker"}).Draw(t, "respSig")
 	c.Recip = rapid.SampledFrom([]string{"absent", "absent", "sp", "other", "undecodable", "sp-otherwindow"}).Draw(t, "recip")
 	c.IdPWide = rapid.Bool().Draw(t, "idpWide")
@@ -170,6 +170,36 @@ func (c *C07Case) build() error {
 		ext := etree.NewElement("samlp:Extensions")
 		ext.AddChild(ea)
 		root.AddChild(ext)
+	case "direct+nested-after", "nested-before+direct":
+		// a genuine trusted-signed assertion, encrypted, as direct child — plus this case's encrypted element
+		// one level down (in Extensions), after or before it
+		g2 := gridGenuine(c.SP, 1, "none")
+		g2.Model.Assertions[0].ID = h.S("_second")
+		g2.Model.Assertions[0].NameID = h.S(c.GenuineName)
+		r2, err := g2.Tree()
+		if err != nil {
+			return err
+		}
+		a2 := h.AssertionElements(r2)[0]
+		if err := h.SignInPlace(a2, trusted); err != nil {
+			return err
+		}
+		det2, _ := h.DetachedCopy(a2)
+		e2 := c.Enc
+		e2.Recipient, e2.RecipRaw = nil, ""
+		ea2, err := e2.EncryptElement(h.Serialize(det2, h.Layout{}), g.NS)
+		if err != nil {
+			return err
+		}
+		ext := etree.NewElement("samlp:Extensions")
+		ext.AddChild(ea)
+		if c.Place == "direct+nested-after" {
+			root.AddChild(ea2)
+			root.AddChild(ext)
+		} else {
+			root.AddChild(ext)
+			root.AddChild(ea2)
+		}
 	case "in-forged":
 		fa := etree.NewElement("saml:Assertion")
 		fa.CreateAttr("ID", "_holder")
